@@ -53,12 +53,19 @@ def write_replay(check, ob, model, calls, verdict):
     return path
 
 
+def _const_vars(ob, model):
+    return [T.const_bool(bool(v)) if s == T.BOOL else (T.const_int(v) if s == T.INT else T.const_bv(v, s[1]))
+            for (n, s), v in zip(ob.vars, model)]
+
+
 def process_results(check, obs, known):
-    """Classify solver outcomes; replay sat models; apply known findings. Returns counters."""
+    """Classify solver outcomes; replay sat models; apply known findings (re-proving with the known inputs excluded,
+    in parallel rounds). Returns counters."""
     preds = check.known_predicates()
     counters = {"discharged": 0, "claimed": 0, "stretch": 0, "stretch_discharged": 0, "closed": 0,
                 "closed_ok": 0, "witness": 0, "witness_ok": 0, "skipped_domain": 0, "trivial": 0,
                 "nontrivial": 0, "rejected": 0}
+    pending = []
     for ob in obs:
         if ob.status == "skipped-domain":
             counters["skipped_domain"] += 1
@@ -70,10 +77,10 @@ def process_results(check, obs, known):
             elif ob.kind == "claimed":
                 check.inconclusive.append("witness %s is %s (vacuous obligation or unreachable kernel)" % (ob.name, ob.status))
             continue
-        is_closed = ob.kind == "closed" or not ob.vars
+        ob.is_closed = ob.kind == "closed" or not ob.vars
         if ob.kind == "stretch":
             counters["stretch"] += 1
-        elif is_closed:
+        elif ob.is_closed:
             counters["closed"] += 1
         else:
             counters["claimed"] += 1
@@ -81,31 +88,35 @@ def process_results(check, obs, known):
             counters["trivial"] += 1
         elif ob.vars:
             counters["nontrivial"] += 1
-        rounds = 0
-        excluded = []
-        while True:
-            rounds += 1
-            if ob.status == "unsat":
+        ob.excluded = []
+        ob.cur = ob
+        pending.append(ob)
+    rounds = 0
+    while pending and rounds < 6:
+        rounds += 1
+        again = []
+        for ob in pending:
+            cur = ob.cur
+            st = cur.status
+            if st == "unsat":
                 if ob.kind == "stretch":
                     counters["stretch_discharged"] += 1
-                elif is_closed:
-                    counters["closed_ok"] += 1
-                    counters["discharged"] += 1
                 else:
                     counters["discharged"] += 1
-                break
-            if ob.status == "sat":
-                model = ob.model if ob.model is not None else []
-                if ob.vars and ob.model is None:
+                    if ob.is_closed:
+                        counters["closed_ok"] += 1
+                continue
+            if st == "sat":
+                model = cur.model if cur.model is not None else []
+                if ob.vars and cur.model is None:
                     check.inconclusive.append("%s: sat but no model could be read" % ob.name)
-                    break
+                    continue
                 try:
-                    pv, qv, calls = check.replay(ob, model)
+                    pv, qv, calls = check.replay(cur, model)
                 except Exception as e:   # noqa
                     check.inconclusive.append("%s: replay failed: %r" % (ob.name, e))
-                    break
+                    continue
                 if pv is True and qv is False:
-                    # reproduced natively
                     hit = None
                     for f in known:
                         if f.get("status") != "known":
@@ -115,54 +126,51 @@ def process_results(check, obs, known):
                         pf = preds.get(f["id"])
                         if pf is None:
                             continue
-                        cvars = [T.const_bool(bool(v)) if s == T.BOOL else (T.const_int(v) if s == T.INT else T.const_bv(v, s[1]))
-                                 for (n, s), v in zip(ob.vars, model)]
-                        pt = pf(ob, cvars)
+                        pt = pf(ob, _const_vars(ob, model))
                         if pt is not None and T.is_const(pt) and pt.attr:
                             hit = (f, pf)
                             break
-                    if hit and rounds < 6:
+                    if hit and rounds < 5:
                         f, pf = hit
-                        line = "KNOWN-FINDING: property=%s %s [%s at %s]" % (check.pid, f["what"], ob.name, fmt_model(ob, model))
                         if f["id"] not in [x[0] for x in check.findings_hit]:
-                            print(line)
+                            print("KNOWN-FINDING: property=%s %s [first seen: %s at %s]" % (check.pid, f["what"], ob.name, fmt_model(ob, model)))
                         check.findings_hit.append((f["id"], ob.name, fmt_model(ob, model)))
-                        # re-prove with the known predicate excluded
-                        excluded.append(pf)
-                        base_fn = ob.fn
-                        ex = list(excluded)
+                        ob.excluded.append(pf)
+                        ex = list(ob.excluded)
 
-                        def fn2(K, *vs, _b=base_fn, _ex=ex, _ob=ob):
+                        def fn2(K, *vs, _b=ob.fn, _ex=ex, _ob=ob):
                             r = _b(K, *vs)
                             pre, post = r[0], r[1]
                             for p_ in _ex:
-                                pre = T.and_(pre, T.not_(p_(_ob, list(vs))))
+                                pt_ = p_(_ob, list(vs))
+                                if pt_ is not None:
+                                    pre = T.and_(pre, T.not_(pt_))
                             return (pre, post)
                         ob2 = F.Ob(ob.name, ob.vars, fn2, ob.kind, ob.expect, ob.routes, ob.key, ob.kernels, ob.timeout, ob.note)
-                        check.run_obligations([ob2])
-                        ob.status, ob.model, ob.route, ob.attempts = ob2.status, ob2.model, ob2.route, ob.attempts + ob2.attempts
-                        ob.fn_excl = fn2
+                        ob.cur = ob2
+                        again.append(ob)
                         continue
                     if ob.kind == "stretch":
                         check.notes.append("stretch obligation %s has a reproduced counterexample %s" % (ob.name, fmt_model(ob, model)))
                     path = write_replay(check, ob, model, calls, "reproduced")
                     check.violations.append((ob.name, path, fmt_model(ob, model)))
-                    break
-                else:
-                    path = write_replay(check, ob, model, calls, "not reproduced pre=%r post=%r" % (pv, qv))
-                    check.inconclusive.append("%s: solver model %s does not reproduce natively (pre=%r post=%r); "
-                                              "encoder or oracle error, see %s" % (ob.name, fmt_model(ob, model), pv, qv, path))
-                    break
-            if ob.status == "rejected":
+                    continue
+                path = write_replay(check, ob, model, calls, "not reproduced pre=%r post=%r" % (pv, qv))
+                check.inconclusive.append("%s: solver model %s does not reproduce natively (pre=%r post=%r); "
+                                          "encoder or oracle error, see %s" % (ob.name, fmt_model(ob, model), pv, qv, path))
+                continue
+            if st == "rejected":
                 counters["rejected"] += 1
                 if ob.kind != "stretch":
-                    check.inconclusive.append("%s: could not be encoded: %s" % (ob.name, ob.detail))
-                break
-            # unknown / disagree / error
-            if ob.kind == "stretch":
-                break
-            check.inconclusive.append("%s: not decided (%s) attempts=%s" % (ob.name, ob.status, ob.attempts))
-            break
+                    check.inconclusive.append("%s: could not be encoded: %s" % (ob.name, cur.detail))
+                continue
+            if ob.kind != "stretch":
+                check.inconclusive.append("%s: not decided (%s) attempts=%s" % (ob.name, st, cur.attempts))
+        if again:
+            check.run_obligations([ob.cur for ob in again])
+            for ob in again:
+                ob.attempts = ob.attempts + ob.cur.attempts
+        pending = again
     return counters
 
 
